@@ -80,6 +80,9 @@ fn view_key(kind: ElementKind, key: &str) -> String {
         (ElementKind::Assertion, "by") => "asserted_by".to_string(),
         (ElementKind::Assertion, "status") => "lifecycle.status".to_string(),
         (ElementKind::Evidence, "status") => "lifecycle.status".to_string(),
+        // The engine state is not a member of the Core payload: the view
+        // carries it in the `_system` envelope.
+        (_, "state") => "_system.state".to_string(),
         _ => key.to_string(),
     }
 }
@@ -137,10 +140,13 @@ impl Context<'_> {
             // resolves to and never match.
             if historical && !matches!(column_of(kind, key), Some("__id")) {
                 let slot = match slot {
-                    Slot::Value(value) => {
+                    // Only what the index path normalizes: a key without an
+                    // index column keeps its value as written there too, so a
+                    // number or an array is compared, not refused.
+                    Slot::Value(value) if column_of(kind, key).is_some() => {
                         Slot::Value(Json::String(self.matcher_text(kind, key, &value)?))
                     }
-                    bind => bind,
+                    other => other,
                 };
                 post.push((key.clone(), slot));
                 continue;
